@@ -279,6 +279,23 @@ fn c14_q_windows_error_code_decoding() {
     let r = CrashReason::from_windows_error(code);
     let n = unsafe { TBL_N };
     let c = unsafe { TBL_CALLS };
+    if n == 0 {
+        // native replay of a counterexample: stubs are not active there, the real tables answered; compare with the
+        // documented decoding order computed from the real membership functions (unreachable in the solver run)
+        use num_traits::FromPrimitive;
+        let want = if let Some(e) = werr::WinErrorWindows::from_u32(code) {
+            CrashReason::WindowsWinError(e)
+        } else if let Some(s) = werr::NtStatusWindows::from_u32(code) {
+            CrashReason::WindowsNtStatus(s)
+        } else {
+            match (code & 0xf000_0000 != 0, werr::WinErrorFacilityWindows::from_u32((code >> 16) & 0xfff), werr::WinErrorWindows::from_u32(code & 0xffff)) {
+                (true, Some(f), Some(e)) => CrashReason::WindowsWinErrorWithFacility(f, e),
+                _ => CrashReason::WindowsUnknown(code),
+            }
+        };
+        assert!(r == want);
+        return;
+    }
     assert!(n >= 1 && n <= 3);
     // first question: the whole code as a WinError
     assert!(c[0].0 == 1 && c[0].1 == code as u64);
